@@ -9,7 +9,7 @@ from . import c02
 
 PROPERTY = "C21"
 LEVEL = "translation_validation"
-FUNCTIONS = [("pandapower.converter.pypower.to_ppc", "to_ppc"), ("pandapower.pd2ppc", "_pd2ppc"), ("pandapower.converter.pypower.from_ppc", "_from_ppc_branch"), ("pandapower.converter.pypower.from_ppc", "_from_ppc_bus"),
+FUNCTIONS = [("pandapower.converter.pypower.to_ppc", "to_ppc"), ("pandapower.pd2ppc", "_pd2ppc"), ("pandapower.converter.pypower.from_ppc", "_from_ppc_branch"), ("pandapower.converter.pypower.from_ppc", "_from_ppc_gen"), ("pandapower.converter.pypower.from_ppc", "_gen_to_which"), ("pandapower.converter.pypower.from_ppc", "_from_ppc_bus"),
              ("pandapower.converter.pypower.from_ppc", "_branch_to_which"), ("pandapower.build_branch", "_calc_line_parameter"),
              ("pandapower.build_branch", "_calc_trafo_parameter"), ("pandapower.build_branch", "_calc_impedance_parameter"),
              ("pandapower.pypower.makeYbus", "branch_vectors")]
@@ -17,7 +17,7 @@ STUBS = ["create_lines_from_parameters / create_transformers_from_parameters / c
          "by the converter are captured with their symbolic arguments and written into a template net that the real ppc builders then convert back"]
 ASSUMPTIONS = ["ppc branch data symbolic (r >= 0, x > 0, b <= 0 for transformers), concrete bus numbers / voltage levels / tap presence (they decide line vs trafo vs impedance)",
                "converter scope: pi transformer model, no asymmetric branch data"]
-OUTSIDE = ["MATPOWER .mat files (scipy.io)", "gencost", "gens / ext_grids (bus type logic is structural)", "out-of-service elements, switches"]
+OUTSIDE = ["MATPOWER .mat files (scipy.io)", "gencost", "out-of-service elements, switches"]
 BOUNDS = {"quick": "one branch per instance: line-like, transformer-like (tap ratio above / below nominal, imported as hv-side or lv-side tap changer), impedance-like (different voltage levels, no tap); bus PD/QD/GS/BS", "thorough": "same"}
 _cache = {}
 
@@ -263,6 +263,55 @@ def make_round_trip(tap=True):
     return fn
 
 
+def make_gen():
+    """generator import: per bus the first generator row becomes the voltage controlling unit (ext_grid at the reference bus, gen at a PV
+    bus) and carries that row's own voltage set point, active power and limits; further rows at the bus come back as sgens with their own
+    p / q (in an exported OPF case these are the controllable sgens / loads, whose VG column holds a placeholder)"""
+    def fn(ctx):
+        fp = ctx.load("pandapower.converter.pypower.from_ppc")
+        from pandapower.pypower.idx_bus import BUS_I, BASE_KV, BUS_TYPE, VA, bus_cols
+        from pandapower.pypower.idx_gen import GEN_BUS, VG, PG, QG, GEN_STATUS, PMAX, PMIN, QMAX, QMIN, MBASE, gen_cols
+        bus = np.zeros((3, bus_cols))
+        bus[:, BUS_I] = [0, 1, 2]
+        bus[:, BUS_TYPE] = [3, 2, 1]
+        bus[:, BASE_KV] = 20.
+        rows = [0, 0, 1, 1, 2]                    # bus of every generator row
+        gen = ctx.obj(np.zeros((len(rows), gen_cols)))
+        vg, pg, qg = [], [], []
+        for r, b in enumerate(rows):
+            vg.append(ctx.var(f"vg{r}", 0.9, 1.1)); pg.append(ctx.var(f"pg{r}", 0.1, 10.)); qg.append(ctx.var(f"qg{r}", -5., 5.))
+            gen[r, GEN_BUS], gen[r, GEN_STATUS], gen[r, VG], gen[r, PG], gen[r, QG] = b, 1, vg[r], pg[r], qg[r]
+            gen[r, PMAX], gen[r, PMIN], gen[r, QMAX], gen[r, QMIN], gen[r, MBASE] = 100., -100., 100., -100., 10.
+        cap = {"ext_grid": [], "gen": [], "sgen": []}
+
+        def eg(net_, **kw):
+            cap["ext_grid"].append(kw)
+            return len(cap["ext_grid"]) - 1
+
+        def gens(net_, **kw):
+            cap["gen"].append(kw)
+            return np.arange(len(kw["buses"]))
+
+        def sgens(net_, **kw):
+            cap["sgen"].append(kw)
+            return np.arange(len(kw["buses"]))
+        net = pp.create_empty_network()
+        pp.create_buses(net, 3, 20.)
+        with patched(fp, create_ext_grid=eg, create_gens=gens, create_sgens=sgens):
+            fp._from_ppc_gen(net, {"bus": bus, "gen": gen})
+        ctx.true("one_ext_grid_one_gen_three_sgens", len(cap["ext_grid"]) == 1 and len(cap["gen"]) == 1 and len(cap["gen"][0]["buses"]) == 1
+                 and len(cap["sgen"]) == 1 and len(cap["sgen"][0]["buses"]) == 3)
+        if not (len(cap["ext_grid"]) == 1 and len(cap["gen"]) == 1 and len(cap["sgen"]) == 1):
+            return
+        ctx.eq("ext_grid_keeps_the_set_point_of_its_own_row", cap["ext_grid"][0]["vm_pu"], vg[0])
+        ctx.eq("gen_keeps_the_set_point_of_its_own_row", cap["gen"][0]["vm_pu"][0], vg[2])
+        ctx.eq("gen_keeps_its_active_power", cap["gen"][0]["p_mw"][0], pg[2])
+        for k, r in enumerate((1, 3, 4)):
+            ctx.eq(f"further_row_{r}_comes_back_as_sgen_with_its_own_p", cap["sgen"][0]["p_mw"][k], pg[r])
+            ctx.eq(f"further_row_{r}_comes_back_as_sgen_with_its_own_q", cap["sgen"][0]["q_mvar"][k], qg[r])
+    return fn
+
+
 def instances(tier):
     return [Inst(f"branch_{k}", make_branch(k), nvars=24, samples=3, timeout_ms=60000, raises=(UserWarning,), meta=dict(branch=k)) for k in ("line", "trafo", "impedance")] + \
            [Inst(f"branch_trafo_tap_{side}_{nm}", make_branch("trafo", side, rng), nvars=24, samples=3, timeout_ms=60000, raises=(UserWarning,),
@@ -271,6 +320,7 @@ def instances(tier):
            [Inst(f"round_trip_to_ppc_from_ppc_{nm}", make_round_trip(tp_), nvars=40, samples=2, timeout_ms=60000, raises=(UserWarning,),
                  meta=dict(part="to_ppc -> from_ppc", net="trafo with iron losses (%s), line with conductance, out-of-service line" % nm))
             for nm, tp_ in (("tapped_trafo", True), ("nominal_ratio_trafo", False))] + \
+           [Inst("gen_import", make_gen(), nvars=24, samples=3, meta=dict(part="gen", rows="2 at the reference bus, 2 at a PV bus, 1 at a PQ bus"))] + \
            [Inst("bus_injections", make_bus(), nvars=16, samples=3, meta=dict(part="bus"))]
 
 
